@@ -289,3 +289,34 @@ def both_switch_ends(ctx, R):
     ctx.ob(R, "pandapower.build_bus::ds_create::both-ends", ok,
            "the numba path tests bus1 and bus2" if ok else "the numba path does not test the in-service state of both switch ends",
            fd.loc(tests[0]) if tests else fd.loc())
+
+
+def et_exact(ctx, R, fis, minimum=3):
+    """type codes of referencing tables (switch.et: b, l, t, t3; measurement.element_type ...) are compared for equality:
+    prefix / substring matching confuses 't' with 't3' (and 'trafo' with 'trafo3w')"""
+    ctx.rule(R, "element type codes (switch.et, *.element_type) are matched by equality / isin, never by startswith / contains / "
+                "first-letter slicing: 't' is a prefix of 't3', 'trafo' of 'trafo3w'")
+    n = 0
+    for fi in fis:
+        for node in walk_no_nested(fi.node):
+            t = None
+            if isinstance(node, ast.Compare) and len(node.ops) == 1 and isinstance(node.ops[0], (ast.Eq, ast.NotEq, ast.In, ast.NotIn)):
+                l = norm(node.left).replace('"', "'")
+                if l.endswith(".et") or l.endswith("['et']") or l.endswith(".et.values") or l.endswith("['et'].values"):
+                    n += 1
+            if isinstance(node, ast.Call) and last_attr(node) in ("startswith", "contains", "endswith", "find", "match"):
+                recv = norm(node.func).replace('"', "'")
+                args = " ".join(norm(a) for a in node.args).replace('"', "'")
+                if ".et." in recv or "['et']" in recv or ".et.values" in args or "['et']" in args or ".element_type." in recv or "['element_type']" in recv:
+                    t = node
+            if isinstance(node, ast.Assign) and isinstance(node.targets[0], ast.Name) and "et" in node.targets[0].id.split("_") \
+                    and isinstance(node.value, ast.Subscript) and isinstance(node.value.value, ast.Name) and "type" in node.value.value.id \
+                    and isinstance(node.value.slice, (ast.Constant, ast.Slice)):
+                t = node
+            if t is not None:
+                n += 1
+                ctx.ob(R, f"{fi.module.name}::{fi.qualname}::{norm(t, 60)}", False,
+                       f"`{norm(t, 90)}` matches type codes by prefix / first letter: rows of 't3' (three-winding) switches are treated as "
+                       "'t' (two-winding) rows with the same index, or the other way round", fi.loc(t))
+    ctx.ob(R, "sweep", n >= minimum, f"{n} type-code comparisons examined", "", nontrivial=False)
+    return n
